@@ -185,13 +185,17 @@ func (l *Location) ShouldModifyQuery() bool {
 
 // AddQuery add query to request
 func (l *Location) AddQuery(req *http.Request) {
-	query := req.URL.Query()
-	for key, values := range l.Query {
-		for _, value := range values {
-			query.Add(key, value)
-		}
+	// 只在原有的query后添加，不重新生成原有的query，
+	// 否则客户端的query会被重新编码、排序，无法解析的参数(如a=%zz)则会丢失
+	added := l.Query.Encode()
+	if added == "" {
+		return
 	}
-	req.URL.RawQuery = query.Encode()
+	if req.URL.RawQuery == "" {
+		req.URL.RawQuery = added
+		return
+	}
+	req.URL.RawQuery += "&" + added
 }
 
 func (l *Location) getPriority() int {
